@@ -229,6 +229,56 @@ def resolve_closure_calls(facts, body, rounds=4):
     return body, total
 
 
+# A function of the reference decomposition may be renamed or moved (`analyse_state` -> `Run::analyse_state`).  Splicing its
+# replacement into ITS callers would dissolve the unit the rules reason about (the replica pipeline would appear once per
+# arm of main's match).  For each role below — a reference function identified by a construct only it contains — whose
+# reference path is absent from the tree, the outermost unknown function that contains the construct (directly or through
+# other unknown functions) takes the role: it is kept as a function, everything below it is spliced into it as usual.
+ROLES = (
+    {'reference': 'bin::analyse_state', 'crate': 'bin',
+     'construct': lambda t: (t['func'].get('trait') or '').endswith('ParallelIterator') and
+     (t['func'].get('fn') or '').rsplit('::', 1)[-1] in ('max', 'max_by', 'min', 'min_by', 'max_by_key', 'min_by_key', 'reduce',
+                                                        'reduce_with', 'find_any', 'find_first', 'collect')},
+)
+
+
+def _role_keepers(facts, known, helpers):
+    keep = []
+    for role in ROLES:
+        ref = role['reference']
+        if ref in known and (ref in facts.bodies or ref.split('::', 1)[-1] in facts.bodies):
+            continue            # the reference function is there
+        cand = {}
+        calls = {}
+        for k, b in helpers.items():
+            if b.crate_kind != role['crate']:
+                continue
+            direct = any(role['construct'](t) for _bi, t in b.calls())
+            # closures of the function count as the function
+            for c in facts.closures_of(b):
+                direct = direct or any(role['construct'](t) for _bi, t in c.calls())
+            cand[k] = direct
+            cs = set()
+            for bb in [b] + list(facts.closures_of(b)):
+                for _bi, t in bb.calls():
+                    cb = facts.body_of_fnconst(t['func'])
+                    if cb is not None:
+                        cs.add(getattr(cb, 'key_in_facts', cb.path))
+            calls[k] = cs
+        changed = True
+        while changed:
+            changed = False
+            for k in cand:
+                if not cand[k] and any(cand.get(c) for c in calls[k]):
+                    cand[k] = True
+                    changed = True
+        holders = [k for k, v in cand.items() if v]
+        outer = [k for k in holders if not any(k in calls[o] for o in holders if o != k)]
+        if len(outer) == 1:
+            keep.append(outer[0])
+    return keep
+
+
 def known_default_types():
     """Types of the reference tree that derive Default (none: kept as a function so the reference decomposition stays
     untouched if one is ever added to pk/known_fns.txt)."""
@@ -256,6 +306,8 @@ def normalise(facts, known):
     facts.helpers = {}
     if not helpers:
         return []
+    for k in _role_keepers(facts, known, helpers):
+        helpers.pop(k, None)
     hset = set(id(b) for b in helpers.values())
     want = lambda cb, t: id(cb) in hset      # noqa: E731
     changed = []
